@@ -665,6 +665,38 @@ func checkC09(p *Prog, rp *Report) {
 				}
 			}
 		}
+		// the embedded Paragraph need not be the first member
+		if undecided == "" {
+			mid := mkProbeType("ParagraphInTheMiddle", []probeField{{"Package", str, "", false}, {"Section", str, "", false}, {"Paragraph", paraT, "", true}, {"Priority", str, "", false}})
+			r2 := newC09Run(p)
+			doc2 := "X-First: 1\nPackage: old\nX-Mid: m\nSection: utils\nPriority: optional\nX-Last: z\n"
+			obj, isErr, why := r2.unmarshal(mid, doc2)
+			if !note(why) {
+				if isErr {
+					problems = append(problems, "a struct that embeds Paragraph after other members does not unmarshal")
+				} else {
+					sv := r2.st.Heap[obj].V.(*StructV)
+					sv.F[fieldIndex(structOf(mid), "Package")] = "new"
+					sv.F[fieldIndex(structOf(mid), "Priority")] = "extra"
+					tx, isErr, why := r2.marshal(mid, obj)
+					if !note(why) {
+						para, perr := refParagraph(tx)
+						if isErr || perr != "" {
+							problems = append(problems, fmt.Sprintf("(Paragraph embedded after other members) marshal fails or gives %q", tx))
+						} else {
+							if got := strings.Join(para.order, ","); got != "X-First,Package,X-Mid,Section,Priority,X-Last" {
+								problems = append(problems, fmt.Sprintf("(Paragraph embedded after other members) field order %s, want the original order X-First,Package,X-Mid,Section,Priority,X-Last", got))
+							}
+							for k, w := range map[string]string{"Package": "new", "Priority": "extra", "Section": "utils", "X-First": "1", "X-Mid": "m", "X-Last": "z"} {
+								if g := strings.TrimSuffix(para.values[k], "\n"); g != w {
+									problems = append(problems, fmt.Sprintf("(Paragraph embedded after other members) field %s is written as %q, want %q: known fields must carry the struct's current values", k, g, w))
+								}
+							}
+						}
+					}
+				}
+			}
+		}
 		if undecided != "" {
 			merge.undecided("probe.WithParagraph", pos, undecided)
 		} else {
